@@ -375,6 +375,9 @@ def lift(fn, *vals, kind=None):
     if not any(isinstance(v, T) for v in vals):
         return fn(*vals)
     axes, fns = broadcast(*vals)
+    if not axes:
+        # NumPy: ufuncs / arithmetic on 0-d arrays return scalars
+        return fn(*[f() for f in fns])
     if kind is None:
         ks = {v.kind for v in vals if isinstance(v, T)}
         kind = "real" if len(ks) != 1 else ks.pop()
@@ -1323,9 +1326,7 @@ class Exec:
                 return int(v)
             if is_sym(v) and is_int(v):
                 return v
-            r = toR(v)
-            # python int(): truncation toward zero
-            return If(r >= 0, ToInt(r), -ToInt(-r))
+            return int_of_real(toR(v))
         raise Unsupported(f"builtin {f}")
 
     def is_static(self, fn):
@@ -1695,6 +1696,22 @@ class Exec:
                 return vv
             return ite(And(*conds) if len(conds) > 1 else conds[0], vv, base.elem(*idx))
         return T(base.axes, elem, kind=base.kind, prov=base.prov)
+
+
+def int_of_real(r):
+    """integer value of a real term known to be integral: strips ToReal where syntactically possible, otherwise
+    python/NumPy truncation toward zero"""
+    from z3 import is_to_real, is_app, Z3_OP_UMINUS, Z3_OP_MUL, is_rational_value
+    if is_sym(r) and is_int(r):
+        return r
+    if is_to_real(r):
+        return r.arg(0)
+    if is_app(r) and r.decl().kind() == Z3_OP_UMINUS and is_to_real(r.arg(0)):
+        return -r.arg(0).arg(0)
+    if is_app(r) and r.decl().kind() == Z3_OP_MUL and r.num_args() == 2 and is_rational_value(r.arg(0)) \
+            and r.arg(0).numerator_as_long() == -1 and r.arg(0).denominator_as_long() == 1 and is_to_real(r.arg(1)):
+        return -r.arg(1).arg(0)
+    return If(r >= 0, ToInt(r), -ToInt(-r))
 
 
 class CalleeRaises(Exception):
